@@ -22,6 +22,10 @@ pairs = - | <k>:<v>(,<k>:<v>)*      alts = - | <hex of query text>=<stmts>(/<hex
   setpw <name> <pw>               the catalogue's password of the user changes; the password cache is not cleaned → ok | nouser
   cauth <name> <pw>               Client.Authenticate with the password cache (stateful)  → ok | fail
   boot cfg=<…> <METHOD> <path> db=<s> dbx=<0|1> u=<s> p=<s> h=<hdr> q=<stmts>   a world without users → decision as for route
+  fworld enabled=<0|1>            a new arrow flight auth server (no token issued yet)                  → ok
+  fauth <name> <pw>               handshake with {"username","password"}                                → open | token <i> | denied
+  fauthbad <eof|json>             handshake without payload / with a payload that is not JSON           → open | denied
+  fvalid t<i> | x                 IsValid(token #i) / IsValid(any other text)                           → user <name> | denied
 strings are hex (UTF-8), "-" = empty.  priv = 0..3.
 hdr also: jwt:<alg><key><exp><nbf>:<m|x|n<name>>   alg a=HS256 b=HS384 c=HS512 n=none r=RS256; key s=shared secret w=other e=empty;
           exp f=future p=past m=missing z=0 n=negative t=a string; nbf a=absent p=past f=future
@@ -282,6 +286,7 @@ def step (w : World) (line : String) : World × String :=
 structure St where
   w : World
   cache : AuthCache
+  flight : FlightSt := ⟨false, []⟩
 
 def showPlain : PlainOutcome → String
   | .deny s => "deny " ++ toString s
@@ -291,16 +296,35 @@ def showPlain : PlainOutcome → String
 def stepS (s : St) (line : String) : St × String :=
   let w := s.w
   match (line.trimAscii.toString.splitOn " ").filter (· ≠ "") with
-  | "world" :: _ => let (w', a) := step w line; (⟨w', []⟩, a)     -- a new world is served by a new client: empty cache
+  | "world" :: _ => let (w', a) := step w line; (⟨w', [], s.flight⟩, a)     -- a new world is served by a new client: empty cache
+  | ["fworld", en] =>
+    match (kv "enabled" en).bind (fun x => x.toList.head?.bind bit) with
+    | some b => ({ s with flight := ⟨b, []⟩ }, "ok")
+    | none => (s, "bad-op")
+  | ["fauth", name, pw] =>
+    match unhex name, unhex pw with
+    | some n, some p =>
+      let (a, f', c') := flightAuth OG.Gen.C19.authCacheChecksBase w s.cache s.flight n p
+      (⟨w, c', f'⟩, match a with | .opened => "open" | .token i => "token " ++ toString i | .denied => "denied")
+    | _, _ => (s, "bad-op")
+  | ["fauthbad", _] => (s, if s.flight.enabled then "denied" else "open")   -- no payload / not JSON: nothing is issued
+  | ["fvalid", tok] =>
+    let t : Option (Option Nat) := match tok.toList with
+      | 't' :: rest => (String.ofList rest).toNat?.map some
+      | ['x'] => some none
+      | _ => none
+    match t with
+    | some t => (s, match flightValid s.flight t with | some n => "user " ++ hexOf n | none => "denied")
+    | none => (s, "bad-op")
   | ["setpw", name, pw] =>
     match unhex name, unhex pw with
-    | some n, some p => if (w.findUser n).isSome then (⟨w.setPassword n p, s.cache⟩, "ok") else (s, "nouser")
+    | some n, some p => if (w.findUser n).isSome then ({ s with w := w.setPassword n p }, "ok") else (s, "nouser")
     | _, _ => (s, "bad-op")
   | ["cauth", name, pw] =>
     match unhex name, unhex pw with
     | some n, some p =>
       let (ou, c') := authCached OG.Gen.C19.authCacheChecksBase w s.cache n p
-      (⟨w, c'⟩, if ou.isSome then "ok" else "fail")
+      ({ s with cache := c' }, if ou.isSome then "ok" else "fail")
     | _, _ => (s, "bad-op")
   | ["mauth", u, p, h] =>
     match parseReq w.sharedSecret u p h with
@@ -311,7 +335,7 @@ def stepS (s : St) (line : String) : St × String :=
           parseReq w.sharedSecret u p h, (kv "q" q).bind parseStmts with
     | some c, some path, some d, some dx, some r, some q => (s, showDecision (decideBoot w c method path.toList r d dx q))
     | _, _, _, _, _, _ => (s, "bad-op")
-  | _ => let (w', a) := step w line; (⟨w', s.cache⟩, a)
+  | _ => let (w', a) := step w line; ({ s with w := w' }, a)
 
 partial def loop (s : St) (h : IO.FS.Stream) (out : IO.FS.Stream) : IO Unit := do
   let line ← h.getLine
@@ -321,7 +345,7 @@ partial def loop (s : St) (h : IO.FS.Stream) (out : IO.FS.Stream) : IO Unit := d
   loop s' h out
 
 def main : IO Unit := do
-  loop ⟨emptyWorld, []⟩ (← IO.getStdin) (← IO.getStdout)
+  loop ⟨emptyWorld, [], ⟨false, []⟩⟩ (← IO.getStdin) (← IO.getStdout)
 
 end OG.C19
 
